@@ -1,5 +1,5 @@
 (* C13 - exactly one dead letter per failed delivery, none per success. *)
-From RS Require Import Tactics OpsSpec Timeouts.
+From RS Require Import Tactics OpsSpec Timeouts DeadLetters.
 
 (* static half, over the call-site table generated from src/actor_ref.rs: in every send path,
    every failing branch has exactly one record call, whose reason matches the error of that branch
@@ -42,6 +42,30 @@ Theorem C13_counter : forall s a o f c,
   else s_dlcount s.
 Proof. exact record_dl_count. Qed.
 
+(* ---------- over whole runs ---------- *)
+(* in every reachable state, the records logged for an operation are exactly those its present
+   outcome calls for (none while pending, after Ok, after a cancellation) *)
+Theorem C13_run_exact : forall f ls o p,
+  get_op (run f ls) o = Some p -> dls o (s_trace (run f ls)) = expected_dl p.
+Proof. exact run_dead_letters_exact. Qed.
+
+Theorem C13_run_none_without_operation : forall f ls o,
+  get_op (run f ls) o = None -> dls o (s_trace (run f ls)) = [].
+Proof. exact run_no_op_no_dead_letter. Qed.
+
+Theorem C13_run_none_per_success : forall f ls o p,
+  get_op (run f ls) o = Some p -> (forall e, o_ph p <> ODone (RErr e)) -> dls o (s_trace (run f ls)) = [].
+Proof. exact run_success_no_dead_letter. Qed.
+
+(* exactly one per failed delivery, with the reason of the failing branch and a label of the
+   operation's family - for every run whose begin labels name a function consistent with the
+   operation's kind and timeout (which is all the public API can produce) *)
+Theorem C13_run_one_per_failure : forall f ls o p e,
+  Forall wf_label ls -> get_op (run f ls) o = Some p -> o_ph p = ODone (RErr e) ->
+  exists lb, dls o (s_trace (run f ls)) = [EvDeadLetter (o_tgt p) o (reason_of (ctx_of e)) lb] /\
+             label_family lb = fn_family (o_fn p).
+Proof. exact run_one_dead_letter_per_failure. Qed.
+
 (* non-vacuity: a tell parked on a full mailbox fails with Send when the actor is killed; one
    record, reason ActorStopped, label tell *)
 Definition c13_example : list label :=
@@ -53,6 +77,19 @@ Example C13_example_run :
   option_map o_ph (get_op (run no_feats c13_example) 3) = Some (ODone (RErr ESend)).
 Proof. vm_compute. split; reflexivity. Qed.
 
+Example C13_example_wf : Forall wf_label c13_example /\
+  dls 3 (s_trace (run no_feats c13_example)) = [EvDeadLetter 0 3 DActorStopped LbTell] /\
+  dls 1 (s_trace (run no_feats c13_example)) = [] /\ dls 2 (s_trace (run no_feats c13_example)) = [].
+Proof.
+  split; [repeat constructor; cbn; try (intros H; exfalso; apply H; reflexivity)|vm_compute; repeat split; reflexivity].
+Qed.
+
+Check C13_run_exact. Check C13_run_none_without_operation. Check C13_run_none_per_success. Check C13_run_one_per_failure.
+Print Assumptions C13_run_exact.
+Print Assumptions C13_run_none_without_operation.
+Print Assumptions C13_run_none_per_success.
+Print Assumptions C13_run_one_per_failure.
+Print Assumptions C13_example_wf.
 Check C13_table. Check C13_poll_exact. Check C13_poll_spec. Check C13_first_poll_exact. Check C13_counter.
 Print Assumptions C13_table.
 Print Assumptions C13_poll_exact.
